@@ -831,11 +831,15 @@ def c08(cases, res):
             bw = break_words()
 
             def single(iv):
+                # a member of a run: one symbol wide, from the dictionary side of the conversion, not a break word.  (A
+                # syllable left without any word is converted to its spelling - one symbol, several characters - and
+                # joins a run like any other: a run with such a neighbour is outside C08's dictionary hypothesis.)
                 b, e, kind, text = iv
-                return kind == "P" and e - b == 1 and len(text) == 1 and text[0] not in bw and syms[b].startswith("S")
+                return kind == "P" and e - b == 1 and not (len(text) == 1 and text[0] in bw)
             chosen = set(x for x in prev.snap.get("sels", "").split(",") if x)
             for j, iv in enumerate(ivs):
-                if not single(iv) or (j > 0 and single(ivs[j - 1])) or (j + 1 < len(ivs) and single(ivs[j + 1])):
+                if not single(iv) or len(iv[3]) != 1 or not syms[iv[0]].startswith("S") \
+                        or (j > 0 and single(ivs[j - 1])) or (j + 1 < len(ivs) and single(ivs[j + 1])):
                     continue
                 b, e, _, text = iv
                 if "%d-%d:P:%d" % (b, e, text[0]) not in chosen:
